@@ -17,7 +17,7 @@ RULE = ('family A: random crystals (all lattice systems, 1-3 species, random ori
         'x closestdistance in {default, 0, scalar, per-species list}; family B: skewed cells (triclinic, monoclinic, rhombohedral, '
         'FCC/BCC primitive, hexagonal, oblique, strained) with 1-3 atoms and cut-offs of 2-4.5 (3-D) / 2-9 (2-D) shortest lattice '
         'lengths; family C: directed inputs -- two atoms placed so that a jump shorter than the cut-off has a lattice index beyond '
-        'round(cutoff/|a|)+1 whenever geometry allows. Non-trivial = network with at least one jump; distinct = (family, kind, '
+        'round(cutoff/|a|)+1 whenever geometry allows. family D: directed obstruction -- an obstacle beside one end of a jump whose length is within 5 % of the cut-off and farther than the cut-off from the other end, in a cell without symmetry. Non-trivial = network with at least one jump; distinct = (family, kind, '
         'atoms per species, species, number of jumps, obstruction form)')
 ASSUMPTIONS = ['crystals whose independent group changes when its tolerance goes from 1e-6 to 1e-9 are skipped (atoms symmetric only to '
                'within that window; the repository threshold is 1e-8)',
@@ -28,7 +28,7 @@ ASSUMPTIONS = ['crystals whose independent group changes when its tolerance goes
                'brute-force image range: ceil(r |b_d|/2pi + 1) + 2 per axis (rigorous bound + 2)']
 REQUIRED_OBS = {'networks_checked': 60, 'eval:C21:complete-exactly-once': 60, 'eval:C21:class-closed': 100,
                 'eval:C21:lattice-roundtrip': 60, 'obstructed_jumps': 20, 'obstructed_networks': 5, 'form:list': 5, 'form:scalar': 5,
-                'form:zero': 5, 'straight_through_blocked': 1, 'family:B': 8, 'family:C': 8, 'directed_beyond_code_range': 1}
+                'form:zero': 5, 'straight_through_blocked': 1, 'family:B': 8, 'family:C': 8, 'family:D': 20, 'directed_beyond_code_range': 1}
 CASE_TIMEOUT = 900
 TOL = 1e-7
 SKEW3 = ('tric', 'mono', 'rhomb', 'cubicF', 'cubicI', 'hex', 'tetI', 'orthoC', 'strainF', 'strainI')
@@ -46,6 +46,8 @@ def cases(tier, seed):
     for i in range(32 if q else 200):
         out.append({'seed': seed, 'idx': k, 'hashseed': k % 5, 'family': 'C', 'n': 2, 'maxjumps': 700 if q else 1300,
                     'p2d': 0.85 if q else 0.6}); k += 1
+    for i in range(8 if q else 60):
+        out.append({'seed': seed, 'idx': k, 'hashseed': k % 5, 'family': 'D', 'n': 8}); k += 1
     return out
 
 
@@ -359,9 +361,40 @@ def run_C(case, mon, rng):
     return sample
 
 
+def run_D(case, mon, rng):
+    """directed obstruction geometry: an obstacle beside ONE end of a jump whose length is close to the cut-off, farther than the
+    cut-off from the other end, in a cell without symmetry (no operation supplies a twin obstacle at the other end)"""
+    from onsager import crystal
+    sample = None
+    for k in range(case['n']):
+        dim = 3 if rng.uniform() < 0.6 else 2
+        latt = 2.7 * (np.eye(dim) + 0.12 * rng.normal(size=(dim, dim)))
+        Linv = np.linalg.inv(latt)
+        xA = latt @ rng.uniform(0.1, 0.3, size=dim)
+        e = rng.normal(size=dim); e /= np.linalg.norm(e)
+        n = rng.normal(size=dim); n -= (n @ e) * e; n /= np.linalg.norm(n)
+        xB = xA + e
+        end = int(rng.integers(2))   # obstacle beside the far end (1) or the near end (0) of A -> B
+        along = float(rng.uniform(0.88, 0.95)) if end else float(rng.uniform(0.05, 0.12))
+        dperp = float(rng.uniform(0.46, 0.52))
+        xO = xA + along * e + dperp * n
+        basis = [[Linv @ xA, Linv @ xB], [Linv @ xO]]
+        crys = crystal.Crystal(latt, basis, noreduce=True)
+        refG, degenerate = pg.reference_group(crys.lattice, crys.basis, len(crys.G))
+        if degenerate: continue
+        cutoff = float(rng.uniform(1.03, 1.05))
+        closest = float(dperp + rng.uniform(0.03, 0.06))
+        if rng.uniform() < 0.5: closest = [0., closest]
+        desc = {'kind': 'directed-obstacle', 'lattice': crys.lattice, 'basis': crys.basis, 'obstacle_end': end, 'hashseed': case.get('hashseed')}
+        if sample is None: sample = dict(desc, chem=0, cutoff=cutoff, closest=closest)
+        r = check_network(mon, crys, 0, cutoff, closest, refG, 'D', desc)
+        if r is not None: mon.count('directed_obstacle_networks')
+    return sample
+
+
 def run_case(case):
     mon = Mon()
     fam = case['family']
     rng = gen.rng_for(case['seed'], case['idx'], 21, ord(fam))
-    sample = {'A': run_A, 'B': run_B, 'C': run_C}[fam](case, mon, rng)
+    sample = {'A': run_A, 'B': run_B, 'C': run_C, 'D': run_D}[fam](case, mon, rng)
     return mon.result(sample=sample)
